@@ -342,6 +342,11 @@ class Rewriter:
             if t.k == ID and t.s == 'unwrap_unchecked' and i > lo and st[i - 1].s == '.' and i + 2 < hi and st[i + 1].s == '(' and st[i + 2].s == ')':
                 out.append('unwrap'); self.counts['unwrap_unchecked'] = self.counts.get('unwrap_unchecked', 0) + 1
                 prev_end = t.b; i += 1; continue
+            # (i) X.to_be_bytes() -> X.vx_be(): extension traits in vx.rs (u16, u32) carry the value spec; `to_be_bytes` itself cannot be
+            #     given an assumed specification (its array length is an associated const expression)
+            if t.k == ID and t.s == 'to_be_bytes' and i > lo and st[i - 1].s == '.' and i + 2 < hi and st[i + 1].s == '(' and st[i + 2].s == ')':
+                out.append('vx_be'); self.counts['to_be_bytes'] = self.counts.get('to_be_bytes', 0) + 1
+                prev_end = t.b; i += 1; continue
             # (f) self -> this (only when the receiver was `mut self`)
             if self.rename_self and t.k == ID and t.s == 'self':
                 out.append('this'); prev_end = t.b; i += 1; continue
@@ -696,7 +701,7 @@ def weave_fn(sf, it, fc, report):
 # file level
 # ----------------------------------------------------------------------------------------------
 
-PRELUDE = '#[allow(unused_imports)] use vstd::prelude::*;\n'
+PRELUDE = '#[allow(unused_imports)] use vstd::prelude::*; #[allow(unused_imports)] use crate::vx::{VxBe16, VxBe32};\n'
 
 
 def insert_prelude_pos(text):
